@@ -50,7 +50,7 @@ func scenarioC01(r *Run) {
 
 // C03: notification ordering and no head-of-line blocking by calls.
 func scenarioC03(r *Run) {
-	w := newSrvWorld(r, srvCfg{Prop: "C03", MaxMsgs: 6, MaxBatch: 4, Unknown: true, RPCInfo: true, Cancels: 2, HoldP: 0.5, NoteP: 0.5, KMax: 4})
+	w := newSrvWorld(r, srvCfg{Prop: "C03", MaxMsgs: 6, MaxBatch: 4, Unknown: true, RPCInfo: true, Cancels: 2, Pushes: 2, Stops: 1, HoldP: 0.5, NoteP: 0.5, KMax: 4})
 	w.start()
 	ok := w.drive(func() {
 		if why := w.progress(); why != "" {
